@@ -216,6 +216,8 @@ def space(tier):
     # (g) the scheduler PASS on modules with one, two (every ordered pair) and three operations
     mods = [(a,) for a in MOD_SHAPES] + [(a, b) for a in MOD_SHAPES for b in MOD_SHAPES] + [(a, b, a) for a in MOD_SHAPES[:4] for b in MOD_SHAPES[:4]]
     parts.append(Tagged("module", Product(mods)))
+    # (h) the scheduler PASS on convolution-like snax_gemmx operations (i8 x i8 -> i32): every order of the six loops (quick: oh outermost) x kernel / channel sizes
+    parts.append(Tagged("passconv", Product(perms(6) if th else [p_ for p_ in perms(6) if p_[0] == 0], CONV_SIZES if th else CONV_SIZES[:4])))
     return Concat(*parts)
 
 
@@ -413,6 +415,88 @@ def eval_match(r: CaseResult, shape, fa, fb, want):
         r.violate(f"match|{shape}|{fa}|{fb}|C16|matcher", dict(kind="match", shape=shape, fa=fa, fb=fb), f"TemplatePattern.matches = {got} but the patterns {'do' if wantv else 'do not'} span the same index subspace: template {tA.tolist()} schedule {sA.tolist()}")
 
 
+CONV_SIZES = [(3, 3, 8), (8, 3, 8), (1, 1, 16), (3, 1, 8), (8, 8, 8), (2, 2, 16), (5, 1, 8)]
+CONV_DIMS = ("oh", "ow", "f", "kh", "kw", "c")
+
+
+def eval_passconv(r, perm, sizes, want):
+    """the real dart-scheduler PASS on a convolution-like snax_gemmx operation: x[oh+kh, ow+kw, c] * w[f, kh, kw, c] -> o[oh, ow, f], i8 x i8 -> i32, the six loops
+    in the order `perm`. The element sizes and the constraints the pass requests are the pass's own business: the result must fit the accelerator's template,
+    be pure output stationary and respect the 8-byte memory access granularity for 1 / 1 / 4-byte elements, and visit the operation's iteration space"""
+    KH, KW, C = sizes
+    ext = dict(oh=2, ow=8, f=8, kh=KH, kw=KW, c=C)
+    order = [CONV_DIMS[i] for i in perm]
+    d = {n: f"d{order.index(n)}" for n in CONV_DIMS}
+    dl = ", ".join(f"d{i}" for i in range(6))
+    maps = [
+        f"affine_map<({dl}) -> ({d['oh']} + {d['kh']}, {d['ow']} + {d['kw']}, {d['c']})>",
+        f"affine_map<({dl}) -> ({d['f']}, {d['kh']}, {d['kw']}, {d['c']})>",
+        f"affine_map<({dl}) -> ({d['oh']}, {d['ow']}, {d['f']})>",
+    ]
+    tys = [f'memref<{2 + KH - 1}x{8 + KW - 1}x{C}xi8, "L1">', f'memref<8x{KH}x{KW}x{C}xi8, "L1">', 'memref<2x8x8xi32, "L1">']
+    text = (
+        "builtin.module {\nfunc.func @f(" + ", ".join(f"%m{i} : {t}" for i, t in enumerate(tys)) + ") {\n"
+        f'  "dart.operation"(%m0, %m1, %m2) <{{patterns = [{", ".join(maps)}], accelerator = "snax_gemmx", operandSegmentSizes = array<i32: 2, 1>}}> ({{\n'
+        "  ^bb0(%s0 : !dart.stream<i8>, %s1 : !dart.stream<i8>, %s2 : !dart.stream<i32>):\n"
+        '    %g = "dart.generic"(%s0, %s1) <{library_call = "snax_gemmx"}> ({\n    ^bb1(%e0 : i8, %e1 : i8, %e4 : i32):\n'
+        "      %k = kernel.mac %e0, %e1 : i8, i8 -> i32\n      dart.yield %k : i32\n    }) : (!dart.stream<i8>, !dart.stream<i8>) -> !dart.stream<i32>\n"
+        "    dart.yield %g : !dart.stream<i32>\n  }) : (" + ", ".join(tys) + ") -> ()\n  func.return\n}\n}\n"
+    )
+    key = f"passconv|{perm!r}|{sizes!r}"
+    case = dict(kind="passconv", perm=list(perm), sizes=list(sizes))
+    r.obs = ("passconv", perm, sizes)
+    r.sample = dict(kind="passconv", order=order, sizes=list(sizes))
+    base = common.parse(text)
+    base.verify()
+    src = next(op for op in base.walk() if op.name == "dart.operation")
+    obounds = tuple(ext[n] for n in order)
+    orig = Schedule(SchedulePattern(obounds, p_.data) for p_ in src.patterns.data)
+    try:
+        mod = common.compile_text(text, "insert-accfg-op{accelerator=snax_gemmx},dart-scheduler")
+    except common.Rejected as e:
+        r.rejected = e.kind
+        r.count("passconv_rejected:" + str(e)[:60])
+        return
+    ops = [op for op in mod.walk() if op.name == "dart.schedule"]
+    if len(ops) != 1:
+        r.rejected = "not-scheduled"
+        return
+    op = ops[0]
+    bounds = tuple(b.value.data for b in op.bounds.data)
+    sch = Schedule(SchedulePattern(bounds, p_.data) for p_ in op.patterns.data)
+    r.obs = ("passconv", perm, sizes, str(sch))
+    r.validated = 1
+    r.states = 1
+    r.transitions = 1
+    r.nontrivial = True
+    r.sample["schedule"] = str(sch)
+    if "C03" in want and image(sch) != image(orig):
+        r.violate(key + "|C03|space", case, f"the dart-scheduler pass turns the convolution (loops {order}, sizes {ext}) into a schedule that visits a different multiset of operand indices: {sch}")
+    if "C16" in want:
+        template = common.ctx().get_acc("snax_gemmx").get_template(op)
+        n = template.num_dims
+        bad = None
+        if sch.num_dims < n:
+            bad = f"the schedule has {sch.num_dims} dims, the template {n}"
+        if bad is None:
+            for o, (tp, sp) in enumerate(zip(template, sch)):
+                if not exact_matches(tp.pattern.A.tolist(), sp.pattern.A.tolist()):
+                    bad = f"operand {o}: inner {n} dims {sp.pattern.A[:, -n:].tolist()} do not span the template's index subspace {tp.pattern.A.tolist()}"
+                    break
+        if bad is None:
+            for k in range(1, n + 1):
+                tb = template[0].bounds[-k]
+                if tb is not None and bounds[-k] > tb:
+                    bad = f"inner bound {bounds[-k]} at depth {k} exceeds the template bound {tb}"
+                    break
+        if bad is None and not ref_pure_output_stationary(template, sch):
+            bad = "the schedule is not pure output stationary (requested by the pass)"
+        if bad is None and not ref_memory_flexible(template, sch, [1, 1, 4]):
+            bad = "the schedule does not respect the 8-byte memory access granularity for element sizes 1, 1, 4 bytes (requested by the pass)"
+        if bad:
+            r.violate(key + "|C16|" + bad[:25], case, f"dart-scheduler pass on the convolution with loops {order}, sizes {ext}: {bad}; schedule {sch}")
+
+
 MOD_SHAPES = [(1, 16), (16, 1), (4, 16), (16, 4), (16, 16), (64,), (1, 64), (2, 8, 4), (8, 1, 8)]
 
 
@@ -471,6 +555,10 @@ def evaluate(case, want) -> CaseResult:
         eval_module(r, p[0], want)
         r.count("cases_module")
         return r
+    if kind == "passconv":
+        eval_passconv(r, p[0], p[1], want)
+        r.count("cases_passconv")
+        return r
     if kind == "sched":
         tname, rows, d, flat, bounds, cs = p
         sch = build_schedule(rows, d, flat, bounds)
@@ -495,6 +583,8 @@ def replay(case, want):
     k = case["kind"]
     if k == "module":
         return evaluate(("module", (_t(case["shapes"]),)), want).violations
+    if k == "passconv":
+        return evaluate(("passconv", (_t(case["perm"]), _t(case["sizes"]))), want).violations
     if k in ("sched", "mm"):
         r = evaluate((k, _t(case["p"])), want)
     elif k == "elem":
